@@ -58,7 +58,7 @@ struct Case {
         int state = 0;
         uint64_t seed = 1, len = 64, aad_len = 16;
         int tag_len = 16;
-        int same_keys = 0; // XTS only: 1 = same pointer for k1 and k2, 2 = equal copies
+        int same_keys = 0; // XTS only: 1 = same pointer for k1 and k2, 2 = equal copies, 3 = a copy that differs in ONE byte (must be accepted)
 };
 static J to_json(const Case &c)
 {
@@ -116,6 +116,14 @@ static bool run(const Case &c, pbt::Ctx &ctx)
                 else {
                         uint8_t *copy = A.alloc("k2-copy-of-k1", call.desc[1].size, 1, guard::END);
                         memcpy(copy, call.desc[1].ptr, call.desc[1].size);
+                        // (raw keys: k1 itself; expanded keys: the first round key is the raw key, so a flipped byte there is a different key too)
+                        if (c.same_keys == 3) {
+                                bool expanded = c.entry.find("expanded") != std::string::npos;
+                                size_t raw = c.entry.find("256") != std::string::npos ? 32 : 16;
+                                size_t span = expanded ? 16 : raw;
+                                size_t pos = (c.seed >> 8) % 3 == 0 ? span - 1 : (c.seed >> 8) % 3 == 1 ? 0 : (c.seed >> 12) % span;
+                                copy[pos] ^= (uint8_t) (1u << ((c.seed >> 20) % 8));
+                        }
                         call.argv[0] = (uint64_t) copy;
                 }
         }
@@ -192,7 +200,7 @@ static bool run(const Case &c, pbt::Ctx &ctx)
                 return true;
         }
         // ---- approved
-        if (xts && c.same_keys) {
+        if (xts && c.same_keys && c.same_keys != 3) {
                 bool okrc = rc == ISAL_CRYPTO_ERR_XTS_SAME_KEYS || (failing && rc == ISAL_CRYPTO_ERR_SELF_TEST);
                 if (!okrc && failx("xts-same-keys-rc", "identical data and tweak keys accepted: returned " + std::to_string(rc))) return false;
                 if (!untouched && failx("xts-same-keys-output", "output changed although the keys are identical")) return false;
@@ -247,7 +255,7 @@ int main(int argc, char **argv)
                 if (e.group == "cbc" || e.group == "xts") c.len = 16 * rng<uint64_t>(1, 40) + (e.group == "xts" ? rng<uint64_t>(0, 15) : 0);
                 c.aad_len = coin(1, 4) ? 0 : rng<uint64_t>(1, 64);
                 c.tag_len = pick<int>({ 16, 12, 8 });
-                c.same_keys = e.group == "xts" ? weighted({ 2, 1, 1 }) : 0;
+                c.same_keys = e.group == "xts" ? weighted({ 2, 1, 1, 2 }) : 0;
                 return c;
         };
         P.to_json = to_json;
